@@ -31,9 +31,19 @@ func PrepareGrammar(grammar *ast.Grammar) (bool, error) {
 
 // ComputeNullables evaluates nullable nodes.
 func ComputeNullables(rules map[string]*ast.Rule) {
-	// Compute which rules in a grammar are nullable
-	for _, rule := range rules {
-		rule.NullableVisit(rules)
+	// Compute which rules in a grammar are nullable. Nullability is the least
+	// fixpoint of a monotone system of equations: start with "no rule is
+	// nullable" and re-evaluate until no rule changes. A single pass gave
+	// results (and cached per-expression flags) that depended on the map
+	// iteration order for rules referring to each other.
+	for changed := true; changed; {
+		changed = false
+		for _, rule := range rules {
+			before := rule.Nullable
+			if rule.NullableVisit(rules) != before {
+				changed = true
+			}
+		}
 	}
 }
 
